@@ -8,20 +8,21 @@ _HIST = ('seeded swarm scenarios (chain 2..12 elements, run/continue/reset '
 REG = {
     'C01': dict(
         oracle='c01', profiles=[('dyn', 3, None), ('lock', 1, None)],
-        quick=12000, thorough=300000,
+        quick=12000, thorough=200000, thorough_cfg={'steps': (3, 250)},
         vacuity=['pair_instants', 'held_instants', 'continued', 'F_STOP',
                  'F_RESET'],
         rule=_HIST + 'non-trivial = at least one adjacent pair compared at a '
         'recorded instant'),
     'C02': dict(
         oracle='c02', profiles=[('dyn', 3, None), ('lock', 1, None)],
-        quick=12000, thorough=300000,
-        vacuity=['instants', 'eta_lt_1_pairs', 'continuations', 'F_RESET'],
+        quick=12000, thorough=200000, thorough_cfg={'steps': (3, 250)},
+        vacuity=['instants', 'eta_lt_1_pairs', 'continuations', 'F_RESET',
+                 'redeclared_between_runs'],
         rule=_HIST + 'non-trivial = at least one instant with every torque '
         'relation evaluated'),
     'C03': dict(
         oracle='c03', profiles=[('dyn', 3, None), ('lock', 1, None)],
-        quick=12000, thorough=300000,
+        quick=12000, thorough=200000, thorough_cfg={'steps': (3, 250)},
         vacuity=['instants', 'held_instants', 'continuation_boundaries',
                  'F_RESET'],
         rule=_HIST + 'non-trivial = at least one consecutive instant pair '
@@ -146,7 +147,7 @@ REG['C08'] = dict(
     vacuity=['law_instants', 'current_instants', 'dead_zone_instants',
              'F_BOUNDARY_dead_zone_edge', 'beyond_no_load_speed',
              'negative_speed', 'negative_duty', 'mirror_runs',
-             'mirror_samples'],
+             'mirror_samples', 'probe_points', 'probe_relabelled'],
     rule='scripted duty schedules sweeping [-1,1], sitting on +-i0/imax and '
     'its floating-point neighbours, initial speeds beyond no-load speed, '
     'overloads; law checked at every recorded instant; plus an exact mirror '
@@ -213,7 +214,7 @@ REG['C09'] = dict(
     quick=10000, thorough=250000,
     vacuity=['flag_checks', 'lewis_checks', 'force_samples', 'bending_samples',
              'contact_samples', 'role_MatingMaster', 'role_MatingSlave',
-             'negative_reference_torque', 'F_MISSINGDATA_expected',
+             'negative_reference_torque', 'F_MISSINGDATA_expected', 'later_phases',
              'F_MISSINGDATA', 'teeth_10-20', 'teeth_101-500', 'teeth_>500',
              'worm_alpha_14.5', 'worm_alpha_20', 'worm_alpha_25',
              'worm_alpha_30'],
